@@ -473,6 +473,14 @@ func triggerData(w *World, v Violation) string {
 			return "reset-query-race"
 		}
 	}
+	// failed-refetch-drops-events: a reset re-fetch of the resource was answered with
+	// an error while state events for it reached the gateway during the re-fetch
+	if v.Class == "diverged" {
+		name, _ := splitRID(strings.Replace(v.RID, "{cid}", c.CID, -1))
+		if failedRefetchDropsEvents(w, name) {
+			return "failed-refetch-drops-events"
+		}
+	}
 	// unsend: the rid was handed to the client again by the response of a
 	// request that was already outstanding when the client dropped the rid.
 	if v.Class == "diverged" {
@@ -664,6 +672,9 @@ func triggerRevived(w *World, v Violation) string {
 		return ""
 	}
 	c := w.Clients[v.Conn]
+	if revokedInFlight(c, v.RID, v.T) {
+		return "revoke-in-flight"
+	}
 	delT := -1
 	name, _ := w.expandRID(c, v.RID)
 	for _, e := range w.Log() {
@@ -879,4 +890,59 @@ func triggerC19(w *World, v Violation) string {
 		}
 	}
 	return ""
+}
+
+func failedRefetchDropsEvents(w *World, name string) bool {
+	type pend struct{ t, evs int }
+	gets := map[string]int{} // query -> number of get requests so far
+	open := map[int]*pend{}  // req -> pending re-fetch
+	for _, e := range w.Log() {
+		switch e.Kind {
+		case "mq_req":
+			if e.Subject == "get."+name {
+				gets[e.Query]++
+				if gets[e.Query] >= 2 {
+					open[e.Req] = &pend{t: e.T}
+				}
+			}
+		case "mq_ev":
+			if strings.HasPrefix(e.Subject, "event."+name+".") {
+				ev := e.Subject[len("event."+name+"."):]
+				if ev == "change" || ev == "add" || ev == "remove" {
+					for _, p := range open {
+						p.evs++
+					}
+				}
+			}
+		case "mq_complete":
+			if p, ok := open[e.Req]; ok {
+				delete(open, e.Req)
+				failed := e.Err != "" || strings.Contains(string(e.Payload), `"error"`) || !strings.Contains(string(e.Payload), `"result"`)
+				if failed && p.evs > 0 {
+					return true
+				}
+			}
+		}
+	}
+	return false
+}
+
+// revokedInFlight: an unsubscribe event for the rid was sent to the connection
+// before t while subscribe/get (or call/auth/new) requests for it were in flight.
+func revokedInFlight(c *Client, rid string, t int) bool {
+	for _, ev := range c.Ref.Events {
+		if ev.RID != rid || ev.Event != "unsubscribe" || ev.T > t {
+			continue
+		}
+		for _, id := range c.Ref.ReqOrder {
+			q := c.Ref.Reqs[id]
+			if q.SentT >= ev.T || (q.Resp > 0 && q.RespT < ev.T) {
+				continue
+			}
+			if (q.RID == rid && (q.Action == "subscribe" || q.Action == "get")) || q.Action == "call" || q.Action == "auth" || q.Action == "new" {
+				return true
+			}
+		}
+	}
+	return false
 }
